@@ -23,7 +23,8 @@ def parseSrc (s : String) : Option Src :=
   else if s = "platform" then some .platform else if s = "hashOrder" then some .hashOrder
   else if s = "random" then some .random else if s = "siblings" then some .siblings
   else if s = "psUniqueName" then some .psUniqueName else if s = "psMemo" then some .psMemo
-  else if s = "psTemplateCache" then some .psTemplateCache else none
+  else if s = "psTemplateCache" then some .psTemplateCache
+  else if s = "psModelCache" then some .psModelCache else none
 
 def parseSrcs (s : String) : Option (List Src) :=
   if s = "-" then some [] else (splitOnChar s ',').mapM parseSrc
